@@ -89,6 +89,7 @@ fn main() {
         "C08" => dispatch::<props::c08::C08>(&cli),
         "C09" => dispatch::<props::c09::C09>(&cli),
         "C10" => dispatch::<props::c10::C10>(&cli),
+        "C20" => dispatch::<props::c20::C20>(&cli),
         "C19" => dispatch::<props::c19::C19>(&cli),
         "C18" => dispatch::<props::c18::C18>(&cli),
         "C13" => dispatch::<props::c13::C13>(&cli),
